@@ -19,7 +19,7 @@ Definition rfc_add (bits s n : Z) : Z := (s + n) mod 2 ^ bits.
 Definition valid (bits a : Z) : Prop := 0 <= a < 2 ^ bits.
 
 (** -------- observation printers for the correspondence check -------- *)
-Open Scope string_scope.
+Local Open Scope string_scope.
 Definition show_pair_obs (bits a b : Z) : string :=
   show_bool (sn_eq bits a b) ++ show_bool (sn_lt bits a b) ++ show_bool (sn_gt bits a b)
   ++ show_bool (sn_le bits a b) ++ show_bool (sn_ge bits a b)
